@@ -28,8 +28,13 @@ Families added after the audit round (all enumerated, same oracles):
  * field kinds: anonymous struct, anonymous struct holding an anonymous union, 1-bit signed / unsigned / _Bool
    bitfields, a 64-bit bitfield, _Bool, unsigned / signed char, float, long long, enum, function pointer,
    wchar_t, struct N[2], int[2][2], int *[2], wchar_t[2], unsigned char[3];
- * front ends: out-of-line ABI module, cdef(packed=True), ctype object instead of type string, the default
-   ffi.new_allocator().
+ * front ends: out-of-line ABI module, cdef(packed=True) and cdef(pack=2), ctype object instead of type string,
+   the default ffi.new_allocator(); poison() allocates with malloc (a non-clearing allocator) so that the chunks
+   glibc caches per thread are dirty too.
+Left out on purpose: long double / _Complex fields (the padding bytes of a long double are indeterminate, so two
+correct stores need not give equal images), a Python-level C function as function-pointer leaf, memoryview /
+array.array / generators as initializers (range and bytearray stand for the "not a list, tuple, dict or bytes"
+class), unions with a flexible member.
 """
 import itertools
 import json
@@ -63,8 +68,9 @@ META = dict(
          "_Bool, float, long long, enum, function pointer, wide chars, arrays of structs / arrays / pointers) alone, "
          "paired with old kinds and with each other; every case additionally through the default "
          "ffi.new_allocator() and, on every second case, with a ctype object instead of the type string; the "
-         "flexible types again through an out-of-line ABI module and under cdef(packed=True); zero-fill of large "
-         "top-level arrays around the malloc thresholds (_large.py).",
+         "flexible types again through an out-of-line ABI module and under cdef(packed=True) / cdef(pack=2); "
+         "zero-fill of large top-level arrays around the malloc thresholds (_large.py).  quick about 60 s on the "
+         "loaded machine (dominated by the C compiler runs of the API-mode blocks), thorough about 3 min.",
     note="the leaf stores p.f = v / p.a[i] = v and ffi.offsetof are trusted (decided by C01-C03); for flexible-array "
          "types the reference object is allocated with the same array length before p[0] = init; wide-character "
          "strings are interpreted by the check itself (UTF-32 / UTF-16 units written as raw bytes)")
@@ -312,6 +318,7 @@ class Gen(object):
             "FPTR": (fptr, fptr),
         }
         self.dflt = ffi.new_allocator()
+        self.raw = ffi.new_allocator(should_clear_after_alloc=False)      # malloc without memset, for poison()
 
     def leaf(self, v):
         if isinstance(v, tuple) and len(v) == 2 and v[0] == "@":
@@ -616,16 +623,30 @@ def needed_size(ffi, d, var):
     return off + max(ffi.sizeof(ctype_name(fd)), needed_size(ffi, fd, v))
 
 
-def poison(ffi, nbytes):
-    """Leave dirty free chunks of about the size the next allocation will ask for."""
+_CHAR_ARRAY = {}
+
+
+def poison(ffi, nbytes, alloc=None):
+    """Leave dirty free chunks of about the size the next allocation will ask for.  'alloc': a non-clearing
+    allocator (malloc): unlike calloc it takes the chunks cached per thread by glibc, so that chunks which were
+    clean when they were cached are made dirty as well (otherwise what a malloc without memset returns depends
+    on the history of the process)."""
     blocks = []
+    new = alloc or ffi.new
+    ct = _CHAR_ARRAY.get(id(ffi))
+    if ct is None:
+        _CHAR_ARRAY.clear()
+        ct = _CHAR_ARRAY[id(ffi)] = (ffi, ffi.typeof("char[]"))     # (the ffi is kept alive with its id)
+    ct = ct[1]
+    buf = ffi.buffer
     for d in (-16, 0, 16, 32):
         n = nbytes + d
         if n <= 0:
             continue
+        ff = b"\xff" * n
         for _ in range(9):
-            b = ffi.new("char[]", n)
-            ffi.buffer(b)[:] = b"\xff" * n
+            b = new(ct, n)
+            buf(b)[:] = ff
             blocks.append(b)
     del blocks
 
@@ -709,7 +730,7 @@ def run_type(ffi, gen, rec, d, form, counts):
 
     # no initializer: all zero
     if not isopen:
-        poison(ffi, fixed)
+        poison(ffi, fixed, gen.raw)
         a = ffi.new(newtype)
         img = bytes(ffi.buffer(a))
         count("no_init")
@@ -751,7 +772,7 @@ def run_type(ffi, gen, rec, d, form, counts):
         newarg = ctobj if ci % 2 else newtype
         if ci % 2:
             count("new_with_ctype_object")
-        poison(ffi, need)
+        poison(ffi, need, gen.raw)
         r1 = attempt(lambda: ffi.new(newarg, c.obj))
         # --- path 1b: the same through a recording allocator
         rec.last = None
@@ -1059,7 +1080,7 @@ def run(ctx):
             raise InfraError(r.tb)
         if isinstance(r, pool.Crash):
             ctx.violation({"kind": "crash", "api_mode": block[0] == "API", "mode": block[0]},
-                          {"block": [list(it[:2]) for it in block[1:]][:50], "how": r.describe()})
+                          {"block": [list(it) for it in block[1:]][:400], "mode": block[0], "how": r.describe()})
             continue
         nt, nc, nn, counts, bad = r
         ntypes += nt
@@ -1126,6 +1147,27 @@ def replay(detail):
                 print("VIOLATED", sig, d)
         _large.c20(_C())
         return 1 if _C.n else 0
+    if "block" in detail:
+        # a worker died on this block: run the block again in a forked child and report how it ends
+        import sys
+        items = [(it[0], (it[1][0], tuple(it[1][1]), it[1][2]), tuple(it[2])) for it in detail["block"]]
+        sys.stdout.flush()
+        pid = os.fork()
+        if pid == 0:
+            try:
+                work([detail.get("mode", "INL")] + items)
+            except BaseException as e:
+                print("exception instead of a crash: %s: %s" % (type(e).__name__, e))
+                sys.stdout.flush()
+                os._exit(3)
+            os._exit(0)
+        st = os.waitpid(pid, 0)[1]
+        if os.WIFSIGNALED(st):
+            print("the block of %d types (mode %s) kills the process with signal %d"
+                  % (len(items), detail.get("mode", "INL"), os.WTERMSIG(st)))
+            return 1
+        print("the block of %d types ran to the end (exit status %d)" % (len(items), os.WEXITSTATUS(st)))
+        return 0
     spec = detail["spec"]
     spec = (spec[0], tuple(spec[1]), spec[2])
     idx = detail.get("idx", 0)
